@@ -40,6 +40,8 @@ pub struct ActorPlan {
     pub conformant: bool,
     /// Maximum number of unanswered requests before the actor waits (0 = unlimited pipelining).
     pub window: usize,
+    /// May send ill-formed payloads although it is otherwise an ordinary connection.
+    pub garbage: bool,
     pub script: Vec<Op>,
 }
 
@@ -67,7 +69,7 @@ impl WirePlan {
             "teardown": match self.teardown { Teardown::Clean => "clean", Teardown::BrokerShutdown => "broker-shutdown" },
             "actors": self.actors.iter().map(|a| serde_json::json!({
                 "major": a.major, "minor": a.minor, "legacy": a.legacy, "capacity": a.capacity,
-                "abuser": a.abuser, "conformant": a.conformant, "window": a.window,
+                "abuser": a.abuser, "conformant": a.conformant, "window": a.window, "garbage": a.garbage,
                 "script": a.script.iter().map(|o| o.to_json()).collect::<Vec<_>>(),
             })).collect::<Vec<_>>(),
         })
@@ -86,6 +88,7 @@ impl WirePlan {
                     abuser: a["abuser"].as_bool()?,
                     conformant: a["conformant"].as_bool().unwrap_or(false),
                     window: a["window"].as_u64().unwrap_or(0) as usize,
+                    garbage: a["garbage"].as_bool().unwrap_or(false),
                     script: a["script"]
                         .as_array()?
                         .iter()
@@ -183,6 +186,8 @@ pub struct RunStats {
     pub pendings_injected: u64,
     pub nontrivial: bool,
     pub step_cap_hit: bool,
+    /// Harness-specific count (Level B: transport operations of the victim client).
+    pub aux_count: u64,
 }
 
 pub struct RunResult {
